@@ -108,6 +108,10 @@ pub struct MonState {
     max_fails: BTreeMap<u32, Option<u32>>,
     n_failed: BTreeMap<u32, u32>,
     max_fails_tripped: BTreeSet<u32>,
+    /// the tasks of a job that existed when its failure count exceeded the limit (the statement
+    /// is about "every task of the job that is not yet terminal at that moment"; tasks
+    /// submitted into an open job afterwards are not covered by it)
+    tripped_tasks: BTreeSet<TaskId>,
     jobs_cancel_requested: BTreeSet<u32>,
     completed_seen: BTreeMap<u32, u8>,
     /// (slot, task): the worker confirmed giving the task back
@@ -380,11 +384,15 @@ impl Monitor {
                     if let Some(ds) = self.s.deps.get(task).cloned() {
                         for d in ds {
                             if self.status(d) != TStatus::Finished {
-                                let when = if self.s.dep_bad_at_submit.contains(&(*task, d)) { "-already-at-submit" } else { "" };
+                                let site = if self.s.dep_bad_at_submit.contains(&(*task, d)) {
+                                    format!("dep-unsuccessful-already-at-submit status={:?}", self.status(d))
+                                } else {
+                                    format!("dep-status={:?}", self.status(d))
+                                };
                                 self.v(
                                     Prop::C03,
                                     "launched-before-dependency-finished",
-                                    format!("dep-status={:?}{when}", self.status(d)),
+                                    site,
                                     format!("task {task} launched on worker {worker} while dependency {d} is {:?}", self.status(d)),
                                 );
                             }
@@ -599,6 +607,9 @@ impl Monitor {
             if let Some(ts) = self.s.known_tasks_per_job.get(&j).cloned() {
                 for t in ts {
                     let t = tid(j, t);
+                    if !self.s.tripped_tasks.contains(&t) {
+                        continue; // submitted after the limit was exceeded
+                    }
                     if !self.status(t).terminal() {
                         self.v(
                             Prop::C14,
@@ -719,11 +730,15 @@ impl Monitor {
                 if let Some(ds) = self.s.deps.get(task_id).cloned() {
                     for d in ds {
                         if self.status(d) != TStatus::Finished {
-                            let when = if self.s.dep_bad_at_submit.contains(&(*task_id, d)) { "-already-at-submit" } else { "" };
+                            let site = if self.s.dep_bad_at_submit.contains(&(*task_id, d)) {
+                                format!("dep-unsuccessful-already-at-submit status={:?}", self.status(d))
+                            } else {
+                                format!("dep-status={:?}", self.status(d))
+                            };
                             self.v(
                                 Prop::C03,
                                 "started-before-dependency-finished",
-                                format!("dep-status={:?}{when}", self.status(d)),
+                                site,
                                 format!("TaskStarted({task_id}) while dependency {d} is {:?}", self.status(d)),
                             );
                         }
@@ -748,7 +763,7 @@ impl Monitor {
                         self.v(Prop::C06, "started-instance-mismatch", "TaskStarted", d);
                     }
                 }
-                if self.s.max_fails_tripped.contains(&task_id.job_id().as_num()) {
+                if self.s.tripped_tasks.contains(task_id) {
                     self.v(
                         Prop::C14,
                         "started-after-limit",
@@ -822,6 +837,10 @@ impl Monitor {
                     && n > *m
                 {
                     self.s.max_fails_tripped.insert(job);
+                    if let Some(ts) = self.s.known_tasks_per_job.get(&job) {
+                        let ids: Vec<TaskId> = ts.iter().map(|t| tid(job, *t)).collect();
+                        self.s.tripped_tasks.extend(ids);
+                    }
                 }
                 let _ = pre;
             }
